@@ -104,8 +104,11 @@ fn announcement_bytes(ann: &Value, service: &str) -> Result<Vec<u8>, String> {
             // a third-party encoder: the peer's records in the answer section, records of foreign
             // names in the additional section of the same packet
             let own = announcement_packet(service, &ann["inst"], 120)?;
-            let mut p = Packet::parse(&own).map_err(|e| e.to_string())?.into_reply();
-            let src = Packet::parse(&own).map_err(|e| e.to_string())?;
+            // (if the crate cannot read its own announcement back, the bytes go out as they are)
+            let (mut p, src) = match (Packet::parse(&own), Packet::parse(&own)) {
+                (Ok(a), Ok(b)) => (a.into_reply(), b),
+                _ => return Ok(own.clone()),
+            };
             for r in src.answers.iter().chain(src.additional_records.iter()) {
                 if !p.answers.contains(r) {
                     p.answers.push(r.clone());
@@ -166,22 +169,30 @@ fn discover_once(c: &Value, asynchronous: bool, rt: &tokio::runtime::Runtime) ->
                     announcement_packet(&service, &ann["inst"], 0)?
                 } else {
                     let plain = announcement_packet(&service, &ann["inst"], 120)?;
-                    let src = Packet::parse(&plain).map_err(|e| e.to_string())?;
                     let mut p = Packet::new_reply(1);
-                    for r in src.answers.iter() {
-                        p.answers.push(r.to_cache_flush_record());
+                    if let Ok(src) = Packet::parse(&plain) {
+                        for r in src.answers.iter() {
+                            p.answers.push(r.to_cache_flush_record());
+                        }
                     }
                     p.build_bytes_vec_compressed().map_err(|e| e.to_string())?
                 };
-                let packet = Packet::parse(&first).map_err(|e| format!("own goodbye does not parse: {e}"))?;
+                // (a goodbye that cannot be read back is never ingested)
+                if let Ok(packet) = Packet::parse(&first) {
                 if asynchronous {
                     rt.block_on(simple_mdns::verif::add_response_to_resources_async(packet, &service_name, &own_full, &mut store, &mut None));
                 } else {
                     add_response_to_resources(packet, &service_name, &own_full, &mut store, &mut None);
                 }
+                }
             }
             let bytes = announcement_bytes(ann, &service)?;
-            let packet = Packet::parse(&bytes).map_err(|e| format!("own announcement does not parse: {e}"))?;
+            // (an announcement the crate wrote and cannot read back is simply never ingested: the instance will be
+            // missing from what is reported, which is the verdict's business, not a set-up failure)
+            let packet = match Packet::parse(&bytes) {
+                Ok(p) => p,
+                Err(_) => continue,
+            };
             // alternate between the two ingest paths (with and without the on_discovery channel)
             match (asynchronous, i % 2 == 0) {
                 (false, true) => add_response_to_resources(packet, &service_name, &own_full, &mut store, &mut chan),
